@@ -212,17 +212,41 @@ def impl_obs(case):
     from geff.core_io import read_to_memory
     from geff.validate.data import ValidationConfig
 
-    warnings.simplefilter("ignore")
-    obs: dict = {}
+    with tempfile.TemporaryDirectory(prefix="verif-c15-") as td:
+        return _impl_obs_in(case, Path(td))
+
+
+def impl_seq(seqcase):
+    """a SEQUENCE of conversions in one process and one directory tree: every step is observed like a
+    single conversion (its targets may be those of an earlier step, then with overwrite=True)"""
     with tempfile.TemporaryDirectory(prefix="verif-c15-") as td:
         root = Path(td)
-        ctc_dir = write_dataset(case, root)
+        return {"steps": [_impl_obs_in(step, root) for step in seqcase["seq"]]}
+
+
+def observe(item):
+    return impl_seq(item) if "seq" in item else impl_obs(item)
+
+
+def _impl_obs_in(case, root):
+    import zarr
+
+    import geff
+    from geff.core_io import read_to_memory
+    from geff.validate.data import ValidationConfig
+
+    warnings.simplefilter("ignore")
+    obs: dict = {}
+    if True:
+        droot = root / case["data_dir"] if case.get("data_dir") else root
+        droot.mkdir(exist_ok=True)
+        ctc_dir = write_dataset(case, droot)
         ndim, aframes, arrays = extract_abstract(ctc_dir)
         obs["abstract"] = {"ndim": ndim, "frames": aframes, "table": case["table"]}
         geff_arg = root / case.get("geff_arg", "out.zarr/tracks.geff")
         geff_path = Path(geff_arg).with_suffix(".geff")
         seg_kind = case.get("seg", "none")
-        seg_path = root / "out.zarr" / "seg"
+        seg_path = root / case.get("seg_rel", "out.zarr/seg")
         if seg_kind in ("path",):
             seg_target = seg_path
         elif seg_kind == "str":
@@ -233,7 +257,7 @@ def impl_obs(case):
             seg_target = None
         if case.get("geff_type") == "str":
             geff_arg = str(geff_arg)
-        if case.get("preexisting"):
+        if case.get("preexisting") and not case.get("pre_done"):
             # HISTORY: an older conversion of a DIFFERENT dataset A (possibly another zarr format / tczyx
             # setting) already sits at the target(s); then the conversion under test runs onto it
             pre = case.get("pre") or {"frames": [[[77, [[0] * len(case["shape"])]]]], "table": [[77, 0, 0, 0]]}
@@ -582,8 +606,7 @@ def exhaustive_cases(rng, thorough):
         for ndim in (2, 3):
             for seg in ("none", "path", "str", "store"):
                 combos = [(tz, zf, ow) for tz in (False, True) for zf in (2, 3) for ow in ("fresh", "over", "refuse")]
-                if not thorough:
-                    combos = rng.sample(combos, 2)
+                combos = rng.sample(combos, 8 if thorough else 2)
                 for tz, zf, ow in combos:
                     via = "cli" if (seg in ("none", "path") and rng.random() < 0.3) else "api"
                     cfg = {"seg": seg, "tczyx": tz, "zarr_format": zf, "preexisting": ow != "fresh",
@@ -605,7 +628,7 @@ def history_cases(rng, thorough):
     pick = tpl if thorough else [t for t in tpl if t[0] in ("one-track", "division-2", "single-frame-three-labels")]
     cases = []
     for i, (name, T, tracks) in enumerate(pick):
-        for ndim in ((2, 3) if thorough else (rng.choice([2, 3]),)):
+        for ndim in (rng.choice([2, 3]),):
             for f1 in (2, 3):
                 for f2 in (2, 3):
                     for seg in ("none", "path", "store"):
@@ -625,6 +648,26 @@ def history_cases(rng, thorough):
                             c["history"] = f"v{f1}->v{f2}"
                             cases.append(c)
     return cases
+
+
+def sequence_case(rng, thorough=False):
+    """2..4 conversions in ONE process: 2-D / 3-D mixes, different shapes, formats, targets {none,path,str,store},
+    API and CLI; a step writes onto a fresh target or (overwrite=True) onto the targets of an earlier step"""
+    steps, slots = [], []
+    for k in range(rng.randint(2, 4)):
+        c = random_case(rng, thorough)
+        reuse = bool(slots) and rng.random() < 0.55
+        slot = rng.randrange(len(slots)) if reuse else len(slots)
+        c.update({"data_dir": f"d{k}", "geff_arg": f"s{slot}.zarr/" + rng.choice(["tracks.geff", "tracks"]),
+                  "seg_rel": f"s{slot}.zarr/seg", "preexisting": reuse, "pre_done": True,
+                  "overwrite": True if reuse else rng.random() < 0.2})
+        if reuse:
+            c["pre_format"] = slots[slot]
+            slots[slot] = c["zarr_format"]
+        else:
+            slots.append(c["zarr_format"])
+        steps.append(c)
+    return {"seq": steps}
 
 
 def malformed_case(rng):
@@ -675,20 +718,24 @@ def run(ck: common.Check):
                "template/ndim/target in quick) + conversion histories convert(A, fmt1) -> convert(B, fmt2, overwrite) for all "
                "four format pairs x target {none,path,store} x tczyx, geff target as str/Path, API/CLI (warnings recorded) + seeded random lineage forests (1..4(6) frames, labels with gaps, "
                "random pixel sets, shuffled tables, dropped parentless rows, man_track/res_track, API and CLI) + a "
-               "malformed stream (absent labels, empty/duplicated rows, no nodes) for the error outcomes; "
+               "malformed stream (absent labels, empty/duplicated rows, no nodes) for the error outcomes + sequences of 2..4 "
+               "conversions in one process (2-D/3-D mixes, other shapes/formats, onto fresh targets or with overwrite onto an earlier "
+               "step's targets), every step compared with the model's answer for that dataset alone; "
                "non-trivial = at least one edge expected; distinct = distinct canonical JSON of the case")
     thorough = not ck.quick
     cases = list(corpus())
     n_corpus = len(cases)
     cases += exhaustive_cases(ck.rng, thorough)
     cases += history_cases(ck.rng, thorough)
-    for _ in range(2400 if thorough else 200):
+    for _ in range(1500 if thorough else 180):
         cases.append(random_case(ck.rng, thorough))
-    for _ in range(400 if thorough else 48):
+    for _ in range(300 if thorough else 40):
         cases.append(malformed_case(ck.rng))
     ck.extra["corpus_cases"] = n_corpus
 
-    obs_all = common.pmap(impl_obs, cases, chunksize=4)
+    seqs = [sequence_case(ck.rng, thorough) for _ in range(300 if thorough else 44)]
+    all_obs = common.pmap(observe, cases + seqs, chunksize=4)
+    obs_all, seq_obs = all_obs[:len(cases)], all_obs[len(cases):]
     drv = ck.driver()
     model = drv.ask([o["abstract"] for o in obs_all])
     if model is None:
@@ -729,6 +776,42 @@ def run(ck: common.Check):
                 if d is not None:
                     ck.corr_broken("C15:fromCtc", c, {k: o.get(k) for k in ("exc", "msg", "node_ids", "edges", "axes")},
                                    {"diff": d, "model": mo})
+    # ---- conversion sequences: every step must equal the conversion of its dataset alone
+    # (GeffProps.C15.C15_history_independent: convertSeq = map fromCtc)
+    seq_model = drv.ask([{"op": "seq", "datasets": [o["abstract"] for o in so["steps"]]} for so in seq_obs]) if seq_obs else []
+    if seq_model is None:
+        ck.broken.append({"what": "driver Drivers/C15.lean (seq)", "detail": drv.broken})
+    n_steps = 0
+    for qi, (sq, so) in enumerate(zip(seqs, seq_obs)):
+        small = {"seq": [{k: st[k] for k in st if k != "frames"} | {"n_frames": len(st["frames"])} for st in sq["seq"]]}
+        tags = []
+        for si, (step, o) in enumerate(zip(sq["seq"], so["steps"])):
+            n_steps += 1
+            ab = o["abstract"]
+            tag = "inconsistent"
+            if is_consistent(ab["frames"], ab["table"]):
+                def fail(key, what, observed=None, expected=None, _si=si, _sq=sq):
+                    k2 = key if (_si == 0 or key == "C15:single-child-continuation") else "C15:history-dependent-output"
+                    ck.fail(k2, f"step {_si} of a conversion sequence [{key}]: {what}", _sq, observed, expected)
+                tag = judge(step, o, fail)
+            tags.append(tag)
+            if seq_model is not None:
+                mo = seq_model[qi]
+                if "err" in mo or len(mo.get("steps", [])) != len(so["steps"]):
+                    ck.corr_broken("C15:driver-seq", small, None, mo)
+                    break
+                d = compare_model(o, mo["steps"][si])
+                if d is not None:
+                    if si > 0:
+                        ck.fail("C15:history-dependent-output",
+                                f"step {si} of a conversion sequence differs from the conversion of its dataset alone: {d}",
+                                sq, {k: o.get(k) for k in ("exc", "msg", "node_ids", "edges", "axes")}, mo["steps"][si])
+                    else:
+                        ck.corr_broken("C15:fromCtc(seq step 0)", small, {k: o.get(k) for k in ("exc", "msg", "node_ids", "edges", "axes")},
+                                       {"diff": d, "model": mo["steps"][si]})
+        ck.case(small, tag=f"sequence|{len(sq['seq'])} steps|" + ",".join(sorted(set(tags))), nontrivial=True)
+    ck.extra["conversion_sequences"] = len(seqs)
+    ck.extra["conversion_sequence_steps"] = n_steps
     n_setup_failed = sum(1 for o in obs_all if "pre_exc" in o)
     ck.extra["setup_failed"] = n_setup_failed
     if n_setup_failed * 20 > len(obs_all):
@@ -764,6 +847,21 @@ def run(ck: common.Check):
 
 def replay(rp):
     c = rp["case"]
+    if "seq" in c:
+        fails = []
+        so = impl_seq(c)
+        for si, (step, o) in enumerate(zip(c["seq"], so["steps"])):
+            ab = o["abstract"]
+            if is_consistent(ab["frames"], ab["table"]):
+                judge(step, o, lambda key, what, observed=None, expected=None, _si=si: fails.append({"step": _si, "key": key, "what": what}))
+            print(json.dumps({"step": si, "exc": o.get("exc"), "msg": o.get("msg"), "node_ids": o.get("node_ids"),
+                              "edges": o.get("edges"), "axes": o.get("axes"), "warnings": o.get("warnings")}, default=str))
+        known = {k["key"] for k in common.load_known() if k["property"] == PROP and k["kind"] == "known"}
+        bad = [f for f in fails if f["key"] not in known]
+        print(json.dumps({"failures": fails}))
+        print("REPLAY: property holds on this input" if not fails else
+              ("REPLAY: property FAILS on this input" + ("" if bad else " (known finding)")))
+        return 1 if fails else 0
     o = impl_obs(c)
     ab = o["abstract"]
     fails = []
